@@ -189,6 +189,9 @@ func (m *module) ExecuteNewCall(ctx context.Context, call *wasm.Call, cached was
 			writer = writerFor(v.UpdatePolicy, v.ValueType)
 		}
 	}
+	if body.CtxSensitive && ctx.Err() != nil {
+		return instance{}, fmt.Errorf("host call failed: rpc error: code = Canceled desc = the request was cancelled while block %d was executing", call.Clock.Number)
+	}
 	if body.FailAt != 0 && call.Clock.Number == body.FailAt {
 		call.SetPanicError(fmt.Sprintf("scripted failure at block %d", body.FailAt), "script", 1, 1)
 		return instance{}, nil
